@@ -217,9 +217,13 @@ func Run(raw json.RawMessage) (any, error) {
 }
 
 func normDecimal(s string) string {
-	s = strings.ReplaceAll(s, " ", "")
+	// vitess prints inner 9-digit groups with "%9d" (space padded): read the padding as zeros
 	neg := strings.HasPrefix(s, "-")
 	s = strings.TrimPrefix(s, "-")
+	s = strings.ReplaceAll(s, " ", "0")
+	if s == "" || strings.HasPrefix(s, ".") {
+		s = "0" + s
+	}
 	for len(s) > 1 && s[0] == '0' && s[1] != '.' {
 		s = s[1:]
 	}
